@@ -45,6 +45,8 @@ pub enum Ins {
     Jmp(String, bool),
     Jcc(Cc, String),
     Lea(u8, String),
+    /// lea dst, [base + index*scale + disp]
+    LeaAddr(u8, u8, Option<(u8, u8)>, i64),
     Push(u8),
     Pop(u8),
     Call(String),
@@ -211,8 +213,40 @@ pub fn parse(text: &str) -> Result<Program, String> {
                 let (r, m) = rest.split_once(',').ok_or("lea operands")?;
                 let r = reg(r.trim()).ok_or("lea register")?;
                 let m = m.trim();
-                let l = m.strip_prefix("[rel ").and_then(|x| x.strip_suffix(']')).ok_or_else(|| format!("lea form {m}"))?;
-                Ins::Lea(r, l.trim().to_string())
+                if let Some(l) = m.strip_prefix("[rel ").and_then(|x| x.strip_suffix(']')) {
+                    Ins::Lea(r, l.trim().to_string())
+                } else {
+                    // [base + index*scale + disp], every part but the base optional
+                    let inner = m.strip_prefix('[').and_then(|x| x.strip_suffix(']')).ok_or_else(|| format!("lea form {m}"))?;
+                    let mut base = None;
+                    let mut index = None;
+                    let mut disp = 0i64;
+                    for (k, part) in inner.replace('-', "+-").split('+').enumerate() {
+                        let part = part.trim();
+                        if part.is_empty() {
+                            continue;
+                        }
+                        if let Some((x, sc)) = part.split_once('*') {
+                            let x = reg(x.trim()).ok_or_else(|| format!("lea form {m}"))?;
+                            let sc: u8 = sc.trim().parse().map_err(|_| format!("lea form {m}"))?;
+                            if index.is_some() || ![1, 2, 4, 8].contains(&sc) {
+                                return Err(format!("line {}: lea form {m}", ln + 1));
+                            }
+                            index = Some((x, sc));
+                        } else if let Some(x) = reg(part) {
+                            if k == 0 || base.is_none() {
+                                base = Some(x);
+                            } else if index.is_none() {
+                                index = Some((x, 1));
+                            } else {
+                                return Err(format!("line {}: lea form {m}", ln + 1));
+                            }
+                        } else {
+                            disp = disp.wrapping_add(part.replace(' ', "").parse::<i64>().map_err(|_| format!("lea form {m}"))?);
+                        }
+                    }
+                    Ins::LeaAddr(r, base.ok_or_else(|| format!("lea form {m}"))?, index, disp)
+                }
             }
             "push" => Ins::Push(reg(rest).ok_or("push register")?),
             "pop" => Ins::Pop(reg(rest).ok_or("pop register")?),
@@ -262,6 +296,8 @@ pub struct Machine<'p> {
     pub flags: Option<(i64, i64)>,
     pub flags_def: bool,
     pub flags_origin: &'static str,
+    /// only the zero and sign flags of `flags` are modelled (set by add/imul: result against 0)
+    pub flags_partial: bool,
     pub max_written: u64,
     /// heap and free registers at the marker of a print statement: they must be the same at the next
     /// statement boundary (a print allocates nothing; the registers are caller-saved)
@@ -459,6 +495,7 @@ pub fn run(prog: &Program, args: &[i64], cfg: &EmuConfig) -> EmuResult {
         flags: None,
         flags_def: true,
         flags_origin: "",
+        flags_partial: false,
         max_written: 0,
         print_guard: None,
         prints: Vec::new(),
@@ -586,13 +623,24 @@ pub fn run(prog: &Program, args: &[i64], cfg: &EmuConfig) -> EmuResult {
                         _ => (a as i64).wrapping_mul(b as i64) as u64,
                     };
                     m.write(d, r, da && db)?;
-                    m.flags = None;
+                    // sub sets the flags exactly as cmp does; of add and imul only the zero and
+                    // sign flags are modelled
+                    if matches!(ins, Ins::Sub(..)) {
+                        m.flags = Some((a as i64, b as i64));
+                        m.flags_partial = false;
+                    } else {
+                        m.flags = Some((r as i64, 0));
+                        m.flags_partial = true;
+                    }
+                    m.flags_def = da && db;
+                    m.flags_origin = if !da { origin(a) } else if !db { origin(b) } else { "" };
                     Ok(pc + 1)
                 }
                 Ins::Cmp(a, b) => {
                     let (x, dx) = m.read(a)?;
                     let (y, dy) = m.read(b)?;
                     m.flags = Some((x as i64, y as i64));
+                    m.flags_partial = false;
                     m.flags_def = dx && dy;
                     m.flags_origin = if !dx { origin(x) } else if !dy { origin(y) } else { "" };
                     Ok(pc + 1)
@@ -646,6 +694,10 @@ pub fn run(prog: &Program, args: &[i64], cfg: &EmuConfig) -> EmuResult {
                     if !m.flags_def {
                         return Machine::viol(ViolationKind::Poison, format!("conditional jump depends on an undefined value{}", m.flags_origin));
                     }
+                    if m.flags_partial && !matches!(cc, Cc::E | Cc::Ne | Cc::S | Cc::Ns) {
+                        // overflow / carry of an addition or multiplication: outside this model
+                        return Err(Stop::Undef(Undefined::Fuel));
+                    }
                     let t = match cc {
                         Cc::E => a == b,
                         Cc::Ne => a != b,
@@ -661,6 +713,17 @@ pub fn run(prog: &Program, args: &[i64], cfg: &EmuConfig) -> EmuResult {
                         Cc::Ns => a.wrapping_sub(b) >= 0,
                     };
                     if t { m.jump_label(l) } else { Ok(pc + 1) }
+                }
+                Ins::LeaAddr(r, b, x, disp) => {
+                    let mut v = m.regs[*b as usize].wrapping_add(*disp as u64);
+                    let mut d = m.rdef[*b as usize];
+                    if let Some((x, sc)) = x {
+                        v = v.wrapping_add(m.regs[*x as usize].wrapping_mul(*sc as u64));
+                        d = d && m.rdef[*x as usize];
+                    }
+                    m.regs[*r as usize] = v;
+                    m.rdef[*r as usize] = d;
+                    Ok(pc + 1)
                 }
                 Ins::Lea(r, l) => {
                     let i = m.jump_label(l)?;
